@@ -12,6 +12,9 @@
   implementations on every generated case (residue stated in DESIGN.md §7 C04).
   Hypotheses (`CurveAbs`) are structure arguments, satisfiable (`Proofs/CurveAbsToy.lean`).
 -/
+import BtcVerif.Props.GuardPins.P_signer
+import BtcVerif.Props.GuardPins.P_der
+import BtcVerif.Props.GuardPins.P_ecc
 import BtcVerif.Proofs.ECCGroup
 import BtcVerif.Proofs.ECCDer
 import BtcVerif.Proofs.ECCSigner
